@@ -260,3 +260,15 @@ Proof. split; [exact pot_sum_z_term_form | vm_compute; reflexivity]. Qed.
 Definition dl_cache_per_surface_ok : bool :=
   ((calc_all_g_cache_decl_loop_depth =? 1)%Z || calc_all_g_cache_cleared_in_surface_loop) &&
   (calc_all_g_cache_lookup_loop_depth =? 2)%Z && (calc_all_g_cache_count =? 1)%Z.
+
+(* CD-MUSIC plane 0: sigma0 = F (f + sum) / (A g) where sum adds sites * z_master over the comp_unknowns of the charge unknown.
+   setup_surface (prep.cpp) must register the SURFACE unknown of EVERY site type of the surface there: the (single) registration
+   statement sits in the loop over the surface components but NOT in the inner loop over the three planes and not under a condition
+   on the plane or on whether the charge unknown already existed.  (regenerated statement context) *)
+Definition mentions (pat g : string) : bool := match index 0 pat g with Some _ => true | None => false end.
+Definition cd_comp_registration_ok : bool :=
+  (setup_surface_comp_reg_count =? 1)%Z && (setup_surface_comp_reg_loop_depth =? 2)%Z &&
+  forallb (fun g => negb (mentions "plane" g) && negb (mentions "NULL" g) && negb (mentions "unknown_ptr" g)) setup_surface_comp_reg_guards.
+
+Lemma cd_sum0_term_form : forall m z, evalR (env_of [m; z]) cd_sum0_term = m * z.
+Proof. intros. unfold cd_sum0_term. unfold_evalR. field. Qed.
